@@ -30,6 +30,9 @@ RULES = {
              'Duration::as_millis / as_micros / as_nanos of the clock read at start-up (two nodes started in the same second must still '
              'compare as older / younger, equal ids make both ignore the other\'s candidacy)',
     'C07.h': 'every node\'s member table names one primary: a store of a possibly-Primary member demotes the others first (same rule as C14.e)',
+    'C07.i': 'the role announced on a node link is recorded for that connection every time: the SetPrimary / SetScoundary arms overwrite '
+             'Client.cluster_member with the announced role (a plain store under its lock); the disconnect path reads that record to decide '
+             'between leave (election) and replicate-leave',
     'C07.e': 'each wait loop of the election has an exit controlled by a counter incremented in the loop and compared with the '
              'election timeout; the single-member shortcut wins at once',
 }
@@ -99,6 +102,7 @@ def templates_in(m, b, region=None):
 def run(ck, m):
     _run(ck, m)
     process_id_rule(ck, m)
+    link_record_rule(ck, m)
     from props import C14
     C14.single_primary(ck, m, rule='C07.h')
 
@@ -350,6 +354,22 @@ def _run(ck, m):
                                 wins = any(sb.term(x)['k'] == 'call' and callee(sb.term(x)) == wb.id for x in treg)
                                 sends = any(sb.term(x)['k'] == 'call' and 'replicate_message' in callee(sb.term(x)) for x in treg)
                                 okm = wins and not sends
+    # the shortcut counts the whole member table (the node's own entry included): a count that leaves members out makes a
+    # node with one live peer win without ever sending its candidacy
+    for bi, t in sb.calls():
+        if callee(t).endswith('count_cluster_members'):
+            cb_ = P.bodies.get(callee(t))
+            if cb_ is not None:
+                roots = core.place_origins(cb_, {'l': 0}, stop_at_calls=True)
+                plain = bool(roots) and all(r[0] == 'call' and callee_decl(cb_.term(r[1])) == 'std::collections::HashMap::len'
+                                            and 'ClusterMember' in cb_.term(r[1])['f'].get('dargs', '') for r in roots)
+                ck.ob('C07.e', short(cb_.id), 'shortcut-counts-every-member', plain,
+                      'the member count used by the single-member shortcut is the size of the member table' if plain else
+                      'the member count used by the single-member shortcut is not the plain size of the member table (%s): with entries '
+                      'filtered out a node that has one live peer takes the "I am alone" shortcut, never sends its candidacy, and both nodes '
+                      'end as primary' % sorted({callee_decl(cb_.term(r[1])).split('::')[-1] if r[0] == 'call' else r[0] for r in roots}),
+                      '%s:%s' % (cb_.file, cb_.line))
+            break
     ck.ob('C07.e', short(sb.id), 'single-member-shortcut', okm,
           'a single-member cluster wins at once without broadcasting' if okm else 'no single-member shortcut found', '%s:%s' % (sb.file, sb.line))
 
@@ -437,3 +457,27 @@ def process_id_rule(ck, m):
                   'the election id is derived through %s: nodes started within the same second get equal ids, each treats the other\'s candidacy '
                   'as its own message and both end as primary' % sorted(kinds), b.loc(bi))
     ck.floor('C07.g', n, 1, 'constructions of Databases with an election id')
+
+
+
+def link_record_rule(ck, m):
+    ex = m.explorer()
+    d, sw = m.dispatcher()
+    for v, want in (('SetPrimary', 'Primary'), ('SetScoundary', 'Secoundary')):
+        if v not in sw[1]:
+            ck.undecided('C07.i', 'dispatcher', v, 'variant %s not found' % v)
+            continue
+        effs, raw = m.arm_effects(v)
+        stores = [(ev, inf) for ev, kind, inf in effs if kind in ('store', 'guarded-replace')
+                  and any(l == 'Client.cluster_member' for l, _ in inf.get('locks', ()))]
+        roles = set()
+        for ev, inf in stores:
+            for val in inf.get('value', ()):
+                for x in ex.extend(val, (('d', 'Some'), ('f', 0, '0', 'std::option::Option'), ('f', 1, 'role', 'nundb::bo::ClusterMember'))):
+                    roles.add(ex.describe(x))
+        ok = bool(stores) and any(want in r for r in roles)
+        ck.ob('C07.i', 'dispatcher', '%s:link-role-recorded' % v, ok,
+              'the arm overwrites the connection\'s member record with role %s' % want if ok else
+              'the %s arm does not overwrite Client.cluster_member with role %s (stores found: %d, roles %s): a link keeps the role it announced '
+              'first, so when a node that became primary later dies its peers see a secondary leaving (replicate-leave) and run no election'
+              % (v, want, len(stores), sorted(roles)), d.loc(sw[1][v]))
